@@ -8,6 +8,7 @@
 -/
 import AnyVecModel.Proofs.Exec
 import AnyVecModel.Props.Hist
+import AnyVecModel.Proofs.ExecSplice
 namespace AnyVec
 namespace Refine
 open World
@@ -24,6 +25,8 @@ inductive VOp where
   | reserve (n : Nat) | reserveExact (n : Nat) | shrinkToFit | shrinkTo (n : Nat)
   /-- `as_mut_slice().swap(i, j)` and `*at_mut(i) = fresh value` through the typed view -/
   | swap (i j : Nat) | assign (i : Nat)
+  /-- `splice(a..b, k fresh owned values)` dropped without taking any item -/
+  | splice (a b k : Nat)
   deriving Repr, DecidableEq
 
 /-- the script step of an abstract operation on vector `v` whose elements have type `ty` -/
@@ -46,6 +49,7 @@ def VOp.toOp (v ty : Nat) : VOp → Op
   | .shrinkTo n => .shrinkTo v n
   | .swap i j => .tswap v i j
   | .assign i => .tassign v i
+  | .splice a b k => .splice v (.incl a) (.excl b) false (List.replicate k (.wrapper ty)) 0 [] .drop
 
 /-- `Vec<Id>` plus the counter identities are drawn from, its capacity, and whether the storage has a fixed capacity
 (`Stack`, `StackN`, `Empty`: there `reserve_exact` / `shrink_to*` do not exist) -/
@@ -127,6 +131,22 @@ inductive Spec.Step : Spec → VOp → Spec → Prop where
   | assign (s : Spec) (i : Nat) (h : i < s.items.length) :
       Step s (.assign i) { s with items := s.items.set i s.next, next := s.next + 1 }
   | assignOut (s : Spec) (i : Nat) (h : s.items.length ≤ i) : Step s (.assign i) { s with next := s.next + 1 }
+  /-- `splice(a..b, k values)`: the items of `a..b` are replaced by the `k` new ones; the capacity stays when the
+  result fits, grows (not on a fixed storage) when it does not - or the storage refuses: then the new values are
+  destroyed and, the iterator's drop having panicked, the vector keeps only the items before `a` (the crate's documented
+  leak-on-panic behaviour). Out-of-range: only the values are consumed. -/
+  | spliceFits (s : Spec) (a b k : Nat) (h : a ≤ b ∧ b ≤ s.items.length) (hfit : a + k + (s.items.length - b) ≤ s.cap) :
+      Step s (.splice a b k)
+        { s with items := s.items.take a ++ List.range' s.next k ++ s.items.drop b, next := s.next + k }
+  | spliceGrow (s : Spec) (a b k c : Nat) (h : a ≤ b ∧ b ≤ s.items.length) (hover : s.cap < a + k + (s.items.length - b))
+      (hfix : s.fixed = false) (hc : a + k + (s.items.length - b) ≤ c) :
+      Step s (.splice a b k)
+        { s with items := s.items.take a ++ List.range' s.next k ++ s.items.drop b, next := s.next + k, cap := c }
+  | spliceRefused (s : Spec) (a b k : Nat) (h : a ≤ b ∧ b ≤ s.items.length)
+      (hover : s.cap < a + k + (s.items.length - b) ∨ USIZE_MAX < a + k + (s.items.length - b)) :
+      Step s (.splice a b k) { s with items := s.items.take a, next := s.next + k }
+  | spliceOut (s : Spec) (a b k : Nat) (h : ¬ (a ≤ b ∧ b ≤ s.items.length)) :
+      Step s (.splice a b k) { s with next := s.next + k }
 
 /-- the concrete world shows the abstract vector at `v` -/
 structure Rel (v ty : Nat) (w : World) (s : Spec) : Prop where
@@ -907,6 +927,196 @@ theorem step_assign (cfg : Cfg) (v ty i : Nat) (w : World) (s : Spec) (h : Rel v
     rw [hex] at hinv' ⊢
     exact Rel.mk' hinv' rfl d (by simpa [logDrop, World.bump] using hv) hl hty habs (by simp [logDrop, World.bump, hn]) hcp hbk
 
+/-- what a `reserve` that returns did -/
+theorem reserve_ok_cases (d d' : VecSt) (n : Nat) (es : List Event) (hwf : d.WF) (h : d.reserve n = .ok (d', es)) :
+    d.len + n ≤ USIZE_MAX ∧ d'.bk = d.bk ∧
+      ((d.len + n ≤ d.cap ∧ d'.cap = d.cap) ∨
+       (d.cap < d.len + n ∧ d.len + n ≤ d'.cap ∧ VecSt.resizable d.bk = true)) := by
+  have hlc := hwf.len_le_cap
+  unfold VecSt.reserve at h
+  cases hca : checkedAdd d.len n with
+  | ok r =>
+    obtain ⟨hr, hsm⟩ := checkedAdd_ok _ _ _ hca
+    rw [hca] at h
+    simp only at h
+    split at h
+    · rename_i hlt
+      obtain ⟨hc, _, _, _, _, _, _, _, _, hbk', _⟩ := memExpand_spec d d' _ es hwf h
+      exact ⟨hsm, hbk', Or.inr ⟨by omega, by omega, memExpand_resizable d d' _ es h⟩⟩
+    · cases h
+      exact ⟨hsm, rfl, Or.inl ⟨by omega, rfl⟩⟩
+  | panic m => rw [hca] at h; cases h
+  | ub m => rw [hca] at h; cases h
+
+/-- a `reserve` that panics was asked for more than there is (or for an unrepresentable length) -/
+theorem reserve_panic_cases (d : VecSt) (n : Nat) (m : String) (h : d.reserve n = .panic m) :
+    d.cap < d.len + n ∨ USIZE_MAX < d.len + n := by
+  unfold VecSt.reserve at h
+  cases hca : checkedAdd d.len n with
+  | ok r =>
+    obtain ⟨hr, hsm⟩ := checkedAdd_ok _ _ _ hca
+    rw [hca] at h
+    simp only at h
+    split at h
+    · left; omega
+    · cases h
+  | panic m' =>
+    right
+    unfold checkedAdd at hca
+    split at hca
+    · cases hca
+    · omega
+  | ub m' => rw [hca] at h; cases h
+
+/-- `Splice::drop` refused by the storage (no injected fault, owned replacement values): the values are destroyed, the
+vector stays as `Splice::new` left it -/
+theorem spliceDrop_refused (cfg : Cfg) (w : World) (it : RangeIt) (d : VecSt) (ty : Nat) (ids : List Nat) (m : String)
+    (hv : w.vecs[it.v]? = some d) (hl : d.live = true) (hf : w.fault = none)
+    (hres : d.reserve (it.start + ids.length + (it.origLen - it.end0) - it.start) = .panic m) :
+    ∃ m', spliceDrop cfg it (wrappers ty ids) ids.length w =
+      (logDrops cfg.hasDrop ids { w with fault := none }, .panic m') := by
+  have hdr := dropRepl_wrappers_nofault cfg ty ids { w with fault := none } rfl
+  simp only [spliceDrop, WM.bind_apply, getVec_ok w it.v d hv hl]
+  by_cases h1 : it.start + ids.length ≤ USIZE_MAX
+  · by_cases h2 : it.start + ids.length + (it.origLen - it.end0) ≤ USIZE_MAX
+    · refine ⟨m, ?_⟩
+      simp only [WM.onUnwind, WM.lift, Bind.bind, Res.bind, checkedAdd, h1, h2, if_true, Pure.pure,
+        vecOp_panic w it.v d (fun s => s.reserve (it.start + ids.length + (it.origLen - it.end0) - it.start)) m hv hl hres, hdr]
+    · refine ⟨"capacity overflow", ?_⟩
+      simp only [WM.onUnwind, WM.lift, Bind.bind, Res.bind, checkedAdd, h1, h2, if_true, if_false, hdr]
+  · refine ⟨"capacity overflow", ?_⟩
+    simp only [WM.onUnwind, WM.lift, Bind.bind, Res.bind, checkedAdd, h1, if_false, hdr]
+
+theorem step_splice (cfg : Cfg) (v ty a b k : Nat) (w : World) (s : Spec) (h : Rel v ty w s) :
+    ∃ s', Spec.Step s (.splice a b k) s' ∧ Rel v ty (step cfg ((VOp.splice a b k).toOp v ty) w).1 s' ∧
+      (step cfg ((VOp.splice a b k).toOp v ty) w).2.notUb := by
+  obtain ⟨hinv, hf, ⟨d, hv, hl, hty, habs, hcp, hbk⟩, hn⟩ := h
+  have hcore : Hist.Core ((VOp.splice a b k).toOp v ty) := by
+    intro r hr; rw [List.eq_of_mem_replicate hr]; trivial
+  have hvalid : Hist.Valid w.vecs ((VOp.splice a b k).toOp v ty) := ⟨⟨d, hv, hl⟩, by intro p hp; cases hp⟩
+  obtain ⟨hinv', hnub⟩ := Hist.step_inv cfg _ w hinv hcore hvalid
+  have hg := hinv.good v d hv
+  have hlen := abs_len hg.wf habs
+  have h1 := hg.wf.len_le; have h2 := hg.wf.cells_le
+  have hlt : v < w.vecs.length := (List.getElem?_eq_some_iff.mp hv).1
+  let ids := List.range' w.created k
+  have hidl : ids.length = k := by simp [ids]
+  have hmk := mkVals_wrappers cfg ty k w
+  have hvm : (w.bumpN k).vecs[v]? = some d := hv
+  have hcl : ((((wrappers ty ids).length : Nat) : Int) + 0).toNat = k := by simp [hidl]
+  by_cases hr : a ≤ b ∧ b ≤ d.len
+  · obtain ⟨hab, hbl⟩ := hr
+    have hir : intoRange d.len (.incl a) (.excl b) = .ok (a, b) := by
+      simp [intoRange, rangeStart, rangeEnd, hab, hbl]
+    let d0 : VecSt := { d with len := a }
+    let it : RangeIt := { v := v, typed := false, start := a, end0 := b, origLen := d.len, index := a, end_ := b }
+    let W0 : World := (w.bumpN k).upd v d0
+    have hv0 : W0.vecs[v]? = some d0 := World.upd_get _ v d0 hlt
+    have hf0 : W0.fault = none := hf
+    have hstep0 : step cfg ((VOp.splice a b k).toOp v ty) w =
+        (do spliceDrop cfg it (wrappers ty ids) k; pure [toString (b - a)] : WM Out) W0 := by
+      simp only [VOp.toOp, step, splice, WM.bind_apply, hmk, getVec_ok (w.bumpN k) v d hvm hl, WM.onUnwind, hir, WM.lift_ok,
+        setLen, setVec_apply, eatLoop, WM.pure_apply]
+      have hcl' : ((((wrappers ty (List.range' w.created k)).length : Nat) : Int) + 0).toNat = k := hcl
+      rw [hcl']
+    have hwf0 : d0.WF := ⟨by show a ≤ d.cells.length; omega, h2⟩
+    cases hres : d0.reserve (a + k + (d.len - b) - a) with
+    | ok p =>
+      obtain ⟨d1, es⟩ := p
+      obtain ⟨hsm0, hbk1, hcases0⟩ := reserve_ok_cases d0 d1 _ es hwf0 hres
+      have hsm : a + (a + k + (d.len - b) - a) ≤ USIZE_MAX := hsm0
+      have hcases : (a + (a + k + (d.len - b) - a) ≤ d.cap ∧ d1.cap = d.cap) ∨
+          (d.cap < a + (a + k + (d.len - b) - a) ∧ a + (a + k + (d.len - b) - a) ≤ d1.cap ∧ VecSt.resizable d.bk = true) :=
+        hcases0
+      have hsmall : a + k + (d.len - b) ≤ USIZE_MAX := by omega
+      have hinit : d0.InitRange a (b - a) := by
+        intro j hj
+        have := hg.init (a + j) (by omega)
+        simpa using this
+      have hres' : d0.reserve (it.start + (wrappers ty ids).length + (it.origLen - it.end0) - it.start) = .ok (d1, es) := by
+        simpa [it, hidl] using hres
+      have hsmall' : it.start + (wrappers ty ids).length + (it.origLen - it.end0) ≤ USIZE_MAX := by simpa [it, hidl] using hsmall
+      have hpl : PlainList (wrappers ty ids) ids d0.ty := by
+        have : d0.ty = ty := hty
+        rw [this]; exact wrappers_plain ty ids
+      obtain ⟨d3, he, hlen3, hcells3, hlive3, hcap3, hty3, hbk3, _, _, _⟩ :=
+        spliceDrop_exec cfg W0 it d0 d1 es (wrappers ty ids) ids hpl hv0 hl hf0 rfl (Nat.le_refl _) hab (Nat.le_refl _)
+          hbl h1 h2 hsmall' hres' hinit
+      obtain ⟨_, hvis, _, _, _, _⟩ :=
+        spliceDrop_replaces cfg W0 it d0 d1 es (wrappers ty ids) ids hpl hv0 hl hf0 rfl (Nat.le_refl _) hab
+          (Nat.le_refl _) hbl h1 h2 hsmall' hres' hinit
+      simp only [wrappers_length, hidl] at he hvis
+      have hfin : step cfg ((VOp.splice a b k).toOp v ty) w =
+          ({ logDrops d0.hasDrop (d0.idsRange a (b - a)) { W0 with vecs := W0.vecs.set v d1, ev := es.reverse ++ W0.ev } with
+              vecs := W0.vecs.set v { d3 with len := a + k + (d.len - b) } }, .ok [toString (b - a)]) := by
+        rw [hstep0]
+        simp only [WM.bind_apply, he, WM.pure_apply]
+        rfl
+      have hlt0 : v < W0.vecs.length := by
+        show v < ((w.bumpN k).vecs.set v d0).length
+        rw [List.length_set]; exact hlt
+      have habs3 : ({ d3 with len := a + k + (d.len - b) } : VecSt).abs =
+          (s.items.take a ++ List.range' s.next k ++ s.items.drop b).map Cell.val := by
+        have hv3 : (spliceDrop cfg it (wrappers ty ids) k W0).1.vecs[v]? = some { d3 with len := a + k + (d.len - b) } := by
+          rw [he]
+          show (W0.vecs.set v { d3 with len := a + k + (d.len - b) })[v]? = _
+          simp [hlt0]
+        have := vis_eq _ v _ hv3
+        rw [← this, hvis]
+        have hd : d.cells.take d.len = s.items.map Cell.val := habs
+        simp only [it, d0, hd, ids, hn, List.map_append, List.map_take, List.map_drop]
+      rcases hcases with ⟨hfit, hc1⟩ | ⟨hover, hc1, hrz⟩
+      · refine ⟨_, Spec.Step.spliceFits s a b k ⟨hab, by omega⟩ (by omega), ?_, hnub⟩
+        rw [hfin] at hinv' ⊢
+        refine Rel.mk' hinv' (by simpa using hf0) { d3 with len := a + k + (d.len - b) } (by simp [hlt0]) hlive3
+          (by show d3.ty = ty; rw [hty3]; exact hty) habs3 (by simp [W0, World.bumpN, hn])
+          (by show d3.cap = s.cap; rw [hcap3, hc1]; exact hcp) (by show VecSt.resizable d3.bk = _; rw [hbk3, hbk1]; exact hbk)
+      · refine ⟨_, Spec.Step.spliceGrow s a b k d1.cap ⟨hab, by omega⟩ (by omega) ?_ (by omega), ?_, hnub⟩
+        · have : VecSt.resizable d.bk = true := hrz
+          rw [this] at hbk; cases hfx : s.fixed <;> simp [hfx] at hbk ⊢
+        · rw [hfin] at hinv' ⊢
+          refine Rel.mk' hinv' (by simpa using hf0) { d3 with len := a + k + (d.len - b) } (by simp [hlt0]) hlive3
+            (by show d3.ty = ty; rw [hty3]; exact hty) habs3 (by simp [W0, World.bumpN, hn])
+            (by show d3.cap = d1.cap; exact hcap3) (by show VecSt.resizable d3.bk = _; rw [hbk3, hbk1]; exact hbk)
+    | panic m =>
+      have hres' : d0.reserve (it.start + ids.length + (it.origLen - it.end0) - it.start) = .panic m := by
+        simpa [it, hidl] using hres
+      obtain ⟨m', hex⟩ := spliceDrop_refused cfg W0 it d0 ty ids m hv0 hl hf0 hres'
+      rw [hidl] at hex
+      have hfin : step cfg ((VOp.splice a b k).toOp v ty) w =
+          (logDrops cfg.hasDrop ids { W0 with fault := none }, .panic m') := by
+        rw [hstep0]
+        simp only [WM.bind_apply, hex]
+      have hov : d.cap < a + (a + k + (d.len - b) - a) ∨ USIZE_MAX < a + (a + k + (d.len - b) - a) :=
+        reserve_panic_cases d0 _ m hres
+      refine ⟨_, Spec.Step.spliceRefused s a b k ⟨hab, by omega⟩ (by omega), ?_, hnub⟩
+      rw [hfin] at hinv' ⊢
+      refine Rel.mk' hinv' (by simp) d0 (by simpa using hv0) hl hty ?_ (by simp [W0, World.bumpN, hn]) hcp hbk
+      show d.cells.take a = (s.items.take a).map Cell.val
+      have hd : d.cells.take d.len = s.items.map Cell.val := habs
+      rw [List.map_take, ← hd, List.take_take]
+      congr 1; omega
+    | ub m =>
+      have := reserve_notUb d0 (a + k + (d.len - b) - a)
+      rw [hres] at this; exact this.elim
+  · -- invalid range: the replacement values are destroyed, nothing else happens
+    have hdr := dropRepl_wrappers_nofault cfg ty (List.range' w.created k) { (w.bumpN k) with fault := none } rfl
+    have hex : ∃ m, step cfg ((VOp.splice a b k).toOp v ty) w =
+        (logDrops cfg.hasDrop ids { (w.bumpN k) with fault := none }, .panic m) := by
+      refine ⟨if a ≤ b then "assertion failed: end <= len" else "assertion failed: start <= end", ?_⟩
+      simp only [VOp.toOp, step, splice, WM.bind_apply, hmk, getVec_ok (w.bumpN k) v d hvm hl, intoRange, rangeStart,
+        rangeEnd]
+      by_cases hab : a ≤ b
+      · have : ¬ b ≤ d.len := fun hb => hr ⟨hab, hb⟩
+        simp only [hab, this, WM.lift, WM.onUnwind, hdr, if_true, if_false, Bind.bind, Res.bind]
+        rfl
+      · simp only [hab, WM.lift, WM.onUnwind, hdr, if_false, Bind.bind, Res.bind]
+        rfl
+    obtain ⟨m, hex⟩ := hex
+    refine ⟨_, Spec.Step.spliceOut s a b k (by omega), ?_, hnub⟩
+    rw [hex] at hinv' ⊢
+    exact Rel.mk' hinv' (by simp) d (by simpa using hvm) hl hty habs (by simp [World.bumpN, hn]) hcp hbk
+
 /-- **one step refines the abstract vector** -/
 theorem step_refines (cfg : Cfg) (v ty : Nat) (w : World) (s : Spec) (h : Rel v ty w s) (op : VOp)
     (hop : op.Allowed s.fixed) :
@@ -930,6 +1140,7 @@ theorem step_refines (cfg : Cfg) (v ty : Nat) (w : World) (s : Spec) (h : Rel v 
   | shrinkTo n => exact step_shrinkTo cfg v ty n w s h hop
   | swap i j => exact step_swap cfg v ty i j w s h
   | assign i => exact step_assign cfg v ty i w s h
+  | splice a b k => exact step_splice cfg v ty a b k w s h
 
 /-- no operation changes the kind of storage -/
 theorem Spec.Step.fixed_eq {s s' : Spec} {op : VOp} (h : Spec.Step s op s') : s'.fixed = s.fixed := by
@@ -948,7 +1159,8 @@ inductive Spec.Steps : Spec → List VOp → Spec → Prop where
 /-- **every history refines the abstract vector**: from any world in which vector `v` shows the abstract items and
 capacity (and which satisfies the invariant, e.g. any reachable world), any sequence of operations - erased and typed
 `push`/`insert`, `pop`/`remove`/`swap_remove` with the handle dropped or (typed) with the value taken, `clear`,
-`drain(a..b)` dropped unconsumed, `reserve`/`reserve_exact`/`shrink_to_fit`/`shrink_to`, typed `swap` and assignment,
+`drain(a..b)` and `splice(a..b, k new values)` dropped unconsumed, `reserve`/`reserve_exact`/`shrink_to_fit`/`shrink_to`,
+typed `swap` and assignment,
 with any indices and amounts - leads to a world that shows what the abstract `Vec` shows after some run of the same
 sequence, and no step faults on memory. The abstract run refuses a value only when the vector is full, grows the
 capacity only when it must (and never on a fixed storage), and leaves the capacity alone otherwise. -/
@@ -1041,6 +1253,7 @@ theorem Spec.Step.cap_fixed {s s' : Spec} {op : VOp} (h : Spec.Step s op s') (hf
     | room _ => rfl
     | grow c _ hfix _ => exact (hne hfix).elim
   case reserveGrow c _ hfix _ => exact (hne hfix).elim
+  case spliceGrow _ _ _ _ _ _ hfix _ => exact (hne hfix).elim
   case reserveExactGrow => exact (hne hop).elim
   case shrinkToFit => exact (hne hop).elim
   case shrinkTo => exact (hne hop).elim
@@ -1107,9 +1320,12 @@ def sampleVec : VecSt :=
     cells := [.val 10, .val 11, .val 12], len := 3, gen := 0, live := true }
 def sampleWorld : World := { vecs := [sampleVec], created := 13 }
 def sampleOps : List VOp := [.push, .insert 1, .remove 0, .swapRemove 0, .pop, .tpush, .remove 9, .reserve 3, .swap 0 2]
+def sampleOps2 : List VOp := [.splice 1 2 2, .assign 0]
 
 example : (runOps { size := 8, align := 8, hasDrop := true } 0 0 sampleWorld sampleOps).vis 0 =
     [.val 15, .val 11, .val 13] := by decide
+example : (runOps { size := 8, align := 8, hasDrop := true } 0 0 sampleWorld sampleOps2).vis 0 =
+    [.val 15, .val 13, .val 14, .val 12] := by decide
 
 end Refine
 end AnyVec
